@@ -166,13 +166,64 @@ PROPS = {
         "level_note": "Trusted: Coq kernel, extraction, driver, harness, controller-runtime fake client. 'vSwitches and security groups present' is checked on the implementation's output "
                       "(checker) and holds in the model for eth0 only (the code fills defaults for eth0 only).",
     },
+    "C01": {
+        "pkg": "./pool/", "test": "TestVerif_Pool", "n_quick": 400, "n_thorough": 20000, "env": {"VERIF_PROP": "C01"},
+        "rule": "histories of 8..48 stimuli (ADD incl. repeated and pre-cancelled ADDs pinned as the daemon pins them, cancel, DEL, completion of a blocked cloud call with "
+                "success / error before effect / error after effect / partial / quota code / exhaustion code, clock advance 100 ms..10 min, balancer pass, remote removal of an address, "
+                "metadata sync) over 1..3 interfaces (secondary/trunk, some already attached), IPv4 / IPv6 / dual, cap 1..5, batch 1..3, both selection policies, through the real eni.Manager + eni.Local "
+                "inside a synctest bubble. Every cloud call, per-interface Allocate/Release/Dispose call and reply is logged in order with virtual time; at every quiescent point the full state of every interface "
+                "(entries with owner/status/primary, live queues, back-off deadline) is compared with the model's. non-trivial = at least two pods got an address and at least one cloud call was in flight when a stimulus arrived; "
+                "distinct = distinct input vectors",
+        "trusted": ["testing/synctest virtual clock and quiescence detection (go1.26.8)",
+                    "simulated cloud (harness/pool/world.go): blocks every factory call until the script releases it with a chosen outcome",
+                    "the replay's expansion of observations into labels (coq/PoolRun.v) is search code: a wrong guess shows as a mismatch, never hides one"],
+        "modelled": ["goroutine interleavings inside one quiescence interval are observed through their outcome only (event order in the log, snapshots)",
+                     "Manager.Allocate's slot order (sort ties) is read off the observed per-interface Allocate calls"],
+        "assumptions": ["E1: the cloud never returns an address that is already assigned on the node; an assign returns at most what was asked",
+                        "H_seq: at most one unfinished request per pod (the daemon's pending set, C04) — a guard of the model's Allocate/Release labels"],
+        "level_text": "Theorems over ALL label sequences of the pool LTS (one label per critical section of pkg/eni/local.go or per outside effect: cloud answer incl. faults and partial results, cancellation, remote removal, clock): "
+                      "an address delivered to a pod and not released is owned by that pod in the interface's set, hence held by at most one pod; a newly handed-out address is valid, i.e. was assigned by the cloud and is neither "
+                      "in an unassign call nor reported missing by a sync; a pod that owns an entry is given that entry again. Tied by replaying the implementation's complete log through the model's step function and comparing every snapshot.",
+        "level_note": "Trusted: Coq kernel, extraction, driver, harness, synctest. Partial: interleavings inside a quiescence interval are validated through their outcome; the second-address-on-repeat-ADD finding (known finding) is a Manager-level behaviour outside the per-interface theorem.",
+    },
+    "C06": {
+        "pkg": "./pool/", "test": "TestVerif_Pool", "n_quick": 400, "n_thorough": 20000, "env": {"VERIF_PROP": "C06"},
+        "rule": "as C01 with a fault-free cloud, frequent balancer passes, pools near cap, min>max and max=0 configurations; every cloud call is judged at call time against the observer's ledger "
+                "(addresses the cloud has on the interface + asked <= cap; interfaces <= slots; no unassign of a held or primary address; no delete of an interface with a held address, a waiting request, or of trunk/erdma type; "
+                "Dispose marks only addresses nobody holds). non-trivial = at least one unassign or delete call was made; distinct = distinct input vectors",
+        "trusted": ["testing/synctest virtual clock and quiescence detection (go1.26.8)",
+                    "simulated cloud (harness/pool/world.go): blocks every factory call until the script releases it with a chosen outcome",
+                    "the replay's expansion of observations into labels (coq/PoolRun.v) is search code: a wrong guess shows as a mismatch, never hides one"],
+        "modelled": ["MaxENI = number of interface slots the daemon builds (daemon/builder.go), taken as configuration"],
+        "assumptions": ["fault-free cloud (the property's quantifier); E1; H_seq; batch <= cap, cap >= 1"],
+        "level_text": "Theorems over all fault-free label sequences: |tracked| + max(|waiting|, in flight) <= cap per family, hence cloud count + asked <= cap at every assign/create; every unassign call carries only unowned, non-primary addresses; "
+                      "a delete call starts only when canDispose (no owner, no live waiting request, not trunk/erdma); Dispose marks only unowned entries. Tied as C01; the quota/safety clauses are also evaluated on the implementation's own call log.",
+        "level_note": "Trusted as C01. The window between DeleteNetworkInterface's start and end (a popped request's worker may still take an address) is stated in DESIGN.md; the theorem is about the call instant.",
+    },
+    "C07": {
+        "pkg": "./pool/", "test": "TestVerif_Pool", "n_quick": 400, "n_thorough": 20000, "env": {"VERIF_PROP": "C07"},
+        "rule": "as C01 with fault placements on a third of the cloud calls (error before effect, error after effect, partial result, quota and exhaustion codes) combined with cancellations and remote removals; "
+                "at every quiescent point the snapshot is judged against the ledger: nothing the cloud assigned is untracked; with no call in flight what is tracked as valid is what the cloud has; no owner without holder; "
+                "no create/assign call before the back-off deadline implied by earlier answers. non-trivial = at least one cloud call failed; distinct = distinct input vectors",
+        "trusted": ["testing/synctest virtual clock and quiescence detection (go1.26.8)",
+                    "simulated cloud (harness/pool/world.go): blocks every factory call until the script releases it with a chosen outcome",
+                    "the replay's expansion of observations into labels (coq/PoolRun.v) is search code: a wrong guess shows as a mismatch, never hides one"],
+        "modelled": ["c07_band (return to the min/max band) is checked by the balancer arithmetic replay only (partial)"],
+        "assumptions": ["factory contract: a failed create returns the interface if it exists; a failed assign returns the addresses that were assigned", "E1; H_seq"],
+        "level_text": "Theorems over all label sequences incl. faults: cloud-assigned addresses are always tracked (no orphan); a Deleting entry stays until an unassign/delete is confirmed; after a truthful sync valid entries = cloud's; "
+                      "create/assign begin only with the back-off deadline in the past and a needy request is refused meanwhile; owner => holder or in-flight request (per interface). Tied as C01.",
+        "level_note": "Trusted as C01. Partial: the watermark band (liveness) is not proved; Manager-level drop of a delivered response (S6) is outside the per-interface model and is judged on the implementation's snapshots.",
+    },
 }
 
 
-def signature(prop, ins, outs):
+def signature(prop, ins, outs, extra=""):
     f = globals().get("sig_" + prop)
     if f:
-        return f(ins, outs)
+        try:
+            return f(ins, outs, extra)
+        except TypeError:
+            return f(ins, outs)
     return "%s:fn%s" % (prop, ins[0] if ins else "?")
 
 
@@ -493,3 +544,116 @@ def dist_C18(cases):
             if outs[2 + 5 * n + 2] != "0":
                 d["with_affinity"] += 1
     return d
+
+
+# ---- pool properties (C01 C06 C07): the input is cfg + length-prefixed records ---------------
+def pool_records(ins):
+    v = [int(x) for x in ins]
+    ns = v[0]
+    hdr = 1 + 2 * ns + 8
+    n = v[hdr]
+    pos = hdr + 1
+    recs = []
+    for _ in range(n):
+        k = v[pos]
+        recs.append(v[pos + 1:pos + 1 + k])
+        pos += 1 + k
+    return v[:hdr], recs
+
+
+def _why(extra):
+    import re
+    m = re.search(r"why=(-?\d+)", extra or "")
+    if not m:
+        return 0, -1
+    w = int(m.group(1))
+    return w // 100000, w % 100000
+
+
+def sig_C01(ins, outs, extra=""):
+    code, idx = _why(extra)
+    try:
+        cfg, recs = pool_records(ins)
+        if code in (145, 165) and 0 <= idx < len(recs):
+            rid = recs[idx][1]
+            pod = next((r[2] for r in recs if r[0] == 1 and r[1] == rid), 0)
+            att = next((r for r in recs[:idx] if r[0] == 20 and r[2] == rid and r[7] == 1), None)
+            if att:
+                slot = att[1]
+                pos = recs.index(att)
+                had_eni = any((r[0] == 12 and r[1] == slot and r[2] in (0, 1) and r[6] != 0) for r in recs[:pos])
+                if not had_eni and att[5] != 0:
+                    return "C01:repeat-add:second-address:pinned-request-served-by-interface-less-slot"
+            return "C01:repeat-add:second-address"
+        if code in (141, 161):
+            return "C01:exclusive:address-held-by-two-pods"
+        if code in (142, 162, 143, 163, 144, 164):
+            return "C01:handout:address-not-live:%d" % (code % 10)
+    except Exception:
+        pass
+    return "C01:?"
+
+
+def sig_C06(ins, outs, extra=""):
+    code, idx = _why(extra)
+    return "C06:clause%d" % code
+
+
+def sig_C07(ins, outs, extra=""):
+    code, idx = _why(extra)
+    return "C07:clause%d" % code
+
+
+def _pool_nt(ins, want):
+    try:
+        cfg, recs = pool_records(ins)
+    except Exception:
+        return False
+    return want(recs)
+
+
+def nt_C01(ins, outs):
+    def want(recs):
+        pods = {r[1] for r in recs if r[0] == 10 and r[2] == 1}
+        inflight = False
+        open_calls = 0
+        for r in recs:
+            if r[0] == 11: open_calls += 1
+            if r[0] == 12 and r[2] != 0: open_calls -= 1
+            if r[0] < 10 and open_calls > 0: inflight = True
+        return len(pods) >= 2 and inflight
+    return _pool_nt(ins, want)
+
+
+def nt_C06(ins, outs):
+    return _pool_nt(ins, lambda recs: any(r[0] == 11 and r[2] >= 4 for r in recs))
+
+
+def nt_C07(ins, outs):
+    return _pool_nt(ins, lambda recs: any(r[0] == 12 and r[2] != 0 and r[3] == 0 for r in recs))
+
+
+def _dist_pool(cases):
+    names = {1: "add", 2: "cancel", 3: "del", 4: "complete_call", 5: "advance", 6: "balancer", 7: "remote_remove", 8: "metasync"}
+    d = {"histories": len(cases), "records": 0, "quiescent_snapshots": 0, "cloud_calls": 0, "cloud_call_failures": 0,
+         "replies_ok": 0, "replies_err": 0, "dual_stack": 0, "ipv6_only": 0, "stimuli": {v: 0 for v in names.values()}}
+    for _, ins, outs in cases:
+        try:
+            cfg, recs = pool_records(ins)
+        except Exception:
+            continue
+        ns = cfg[0]
+        on4, on6 = cfg[1 + 2 * ns], cfg[2 + 2 * ns]
+        d["dual_stack"] += 1 if (on4 and on6) else 0
+        d["ipv6_only"] += 1 if (on6 and not on4) else 0
+        d["records"] += len(recs)
+        for r in recs:
+            if r[0] in names: d["stimuli"][names[r[0]]] += 1
+            elif r[0] == 99: d["quiescent_snapshots"] += 1
+            elif r[0] == 11: d["cloud_calls"] += 1
+            elif r[0] == 12 and r[2] != 0 and r[3] == 0: d["cloud_call_failures"] += 1
+            elif r[0] == 10: d["replies_ok" if r[2] == 1 else "replies_err"] += 1
+    return d
+
+
+dist_C01 = dist_C06 = dist_C07 = _dist_pool
